@@ -22,7 +22,22 @@ class Built:
     pass
 
 
-def build(prog, work: Path, langs=("py", "c", "js", "mat", "combined", "info"), name="out", cli=True, hashseed=None, cwd=None, extra=()):
+def sibling_of(prog):
+    """the same files and names with other meanings behind them (a second rig's, or yesterday's, version of the definitions):
+    native types behind aliases and fields swapped, simple integer constants one larger. Definitions that only name
+    aliases, constants and other structs keep their text while their layout changes."""
+    import re
+    swap = {"int16": "int32", "int32": "int16", "float": "double", "double": "float", "uint8": "uint16", "uint16": "uint8",
+            "int64": "int32", "uint32": "uint64", "uint64": "uint32", "int8": "int16"}
+    files = {}
+    for f, t in prog["files"].items():
+        t = re.sub(r"(?m)^(  [A-Za-z_]\w*: )(u?int(?:8|16|32|64)|float|double)[ \t]*$", lambda m: m.group(1) + swap.get(m.group(2), m.group(2)), t)
+        t = re.sub(r"(?m)^(  K_\w+: )(\d{1,2})[ \t]*$", lambda m: m.group(1) + str(int(m.group(2)) + 1), t)
+        files[f] = t
+    return dict(prog, files=files)
+
+
+def build(prog, work: Path, langs=("py", "c", "js", "mat", "combined", "info"), name="out", cli=True, hashseed=None, cwd=None, extra=(), before=None):
     work = Path(work)
     if work.exists():
         shutil.rmtree(work, ignore_errors=True)
@@ -30,7 +45,21 @@ def build(prog, work: Path, langs=("py", "c", "js", "mat", "combined", "info"), 
     out = work / "out"
     out.mkdir(parents=True)
     root = G.write_closure(prog, src)
-    rc, text = L.compile_closure(root, out, name=name, langs=langs, cli=cli, hashseed=hashseed, cwd=cwd, extra=extra)
+    if before is not None:
+        # one interpreter compiles another closure first (its failure, if any, is its own business), then this one
+        root0 = G.write_closure(before, work / "before" / "src")
+        (work / "before" / "out").mkdir(parents=True)
+        kw = {"python": "py" in langs, "javascript": "js" in langs, "matlab": "mat" in langs, "c_lang": "c" in langs, "info": "info" in langs,
+              "combined": "combined" in langs}
+        code = ("import sys\nfrom pyrtma.compile import compile\nfrom pyrtma.parser import ParserError\n"
+                f"try:\n    compile([{str(root0)!r}], {str(work / 'before' / 'out')!r}, {name!r}, **{kw!r})\nexcept BaseException:\n    pass\n"
+                f"try:\n    compile([{str(root)!r}], {str(out)!r}, {name!r}, **{kw!r})\n"
+                "except ParserError as e:\n    print('PARSER_ERROR', type(e).__name__, str(e)[:300]); sys.exit(1)\n"
+                "except Exception as e:\n    import traceback; traceback.print_exc(); print('INTERNAL_ERROR', type(e).__name__, str(e)[:300]); sys.exit(3)\n")
+        r = L.run([L.PY, "-c", code], cwd=cwd)
+        rc, text = r.returncode, r.stdout + r.stderr
+    else:
+        rc, text = L.compile_closure(root, out, name=name, langs=langs, cli=cli, hashseed=hashseed, cwd=cwd, extra=extra)
     b = Built()
     b.rc, b.text, b.root, b.out, b.work, b.name = rc, text, root, out, work, name
     b.failure = None if rc == 0 else L.classify_compile_failure(rc, text)
